@@ -75,7 +75,10 @@ func parseBoundedSpec(rest string, props []string, where string) (*BoundedSpec, 
 	return s, nil
 }
 
-var boundedCasesRe = regexp.MustCompile(`BOUNDED cases=(\d+) failures=(\d+)`)
+// currentTier ("quick" or "thorough") is handed to the stand-ins as GOVC_TIER: thorough widens the bound.
+var currentTier = "quick"
+
+var boundedCasesRe =regexp.MustCompile(`BOUNDED cases=(\d+) failures=(\d+)`)
 
 func runBounded(sp *BoundedSpec) boundedResult {
 	res := boundedResult{Name: sp.Name, Bound: sp.Bound}
@@ -102,7 +105,7 @@ func runBounded(sp *BoundedSpec) boundedResult {
 	defer cancel()
 	cmd := exec.CommandContext(ctx, "go", "test", "-overlay", ovFile, "-vet=off", "-count=1", "-timeout", "540s", "-v", "-run", "^"+sp.Run+"$", ".")
 	cmd.Dir = filepath.Join(repoRoot, sp.Pkg)
-	cmd.Env = append(os.Environ(), "GOFLAGS=-mod=mod", "GOPROXY=off", "GOSUMDB=off", "GOTOOLCHAIN=local")
+	cmd.Env = append(os.Environ(), "GOFLAGS=-mod=mod", "GOPROXY=off", "GOSUMDB=off", "GOTOOLCHAIN=local", "GOVC_TIER="+currentTier)
 	var out bytes.Buffer
 	cmd.Stdout = &out
 	cmd.Stderr = &out
